@@ -546,6 +546,7 @@ def _drive(case, q, tr, fs, t0, rewire=lambda q: None):
         return np.float64(t) if trep == 'np' else t
 
     dead = False
+    held = None
     for j, op in enumerate(case['ops']):
         if dead:
             tr.lines.append('dead')
@@ -640,6 +641,10 @@ def _drive(case, q, tr, fs, t0, rewire=lambda q: None):
                 d['requested_trials'] = 99
                 d['duration'] = 0
                 d['delays'] = None
+        # a buffer handed out earlier belongs to the caller: a later request must not change it
+        aliased = held is not None and not np.array_equal(held[0], held[1])
+        if len(out):
+            held = (out, np.array(out, copy=True))
         tsf = q.get_ts()
         ts = int(round(tsf * fs))
         step = {
@@ -647,7 +652,7 @@ def _drive(case, q, tr, fs, t0, rewire=lambda q: None):
             'add': tr.added[na:], 'rm': tr.removed[nr:], 'ts': ts, 'ts_exact': tsf == ts / fs,
             'empty': bool(q.is_empty()), 'rem': [int(q.remaining_trials(k)) for k in keys],
             'ct': int(q.count_trials()), 'cr': int(q.count_requested_trials()),
-            'n_empty': tr.n_empty - ne,
+            'n_empty': tr.n_empty - ne, 'aliased': bool(aliased),
             'reqs': [int(q.get_info(k)['requested_trials']) for k in keys],
             'raw_nonzero_outside': None,
         }
@@ -664,7 +669,7 @@ def _drive(case, q, tr, fs, t0, rewire=lambda q: None):
         want_req = [int(case['stims'][i]['trials']) for i in range(len(keys))]
         rq = '' if step['reqs'] == want_req else '!req'
         tr.lines.append(
-            f"{status} out={rle(cells)} add={adds} rm={_lst(step['rm'])} "
+            f"{status} out={rle(cells)}{'!aliased' if aliased else ''} add={adds} rm={_lst(step['rm'])} "
             f"ts={ts}{'' if step['ts_exact'] else '!inexact'} empty={int(step['empty'])}{note} "
             f"rem={_lst(step['rem'])} ct={step['ct']} cr={step['cr']}{rq}")
 
